@@ -350,3 +350,32 @@ Proof.
   - apply forallb_forall. intros x Hx. apply in_map_iff in Hx as (r & <- & _). simpl. apply optN_eqb_refl.
   - rewrite map_length, Hc. apply Nat.eqb_refl.
 Qed.
+
+(** * a draining Close: what the wrapped subscriber hands out before its Close returns *)
+Lemma ebc_before_close a post :
+  count_closes a = 0 -> emitted_before_close (a ++ SoClose :: post) = emitted_before_close a.
+Proof.
+  unfold count_closes. induction a as [|o a IH]; simpl; intros H; [reflexivity|].
+  destruct o; simpl in *; [rewrite IH by exact H; reflexivity | apply IH; exact H | discriminate].
+Qed.
+
+(** everything emitted up to the (first) Close of the wrapped subscriber — also what it hands out
+    while its own Close is still running, which for the decorators is before Close — reaches the
+    consumer, in order; nothing after it does *)
+Lemma srun_out_until_close stk heap a post :
+  count_closes a = 0 ->
+  map fst (sw_out (srun stk heap (a ++ SoClose :: post))) = valid_emits heap a.
+Proof.
+  intros H. rewrite srun_out. unfold valid_emits. rewrite ebc_before_close by exact H. reflexivity.
+Qed.
+
+Lemma valid_emits_all heap a :
+  count_closes a = 0 ->
+  valid_emits heap a
+  = filter (fun i => match nth_error heap i with Some _ => true | None => false end)
+           (flat_map (fun o => match o with SoEmit i => [i] | _ => [] end) a).
+Proof.
+  intros H. unfold valid_emits. f_equal. unfold count_closes in H.
+  induction a as [|o a IH]; simpl in *; [reflexivity|].
+  destruct o; simpl in *; [rewrite IH by exact H; reflexivity | apply IH; exact H | discriminate].
+Qed.
